@@ -486,11 +486,19 @@ class Gen:
                 if m > 0 and "cast-close" in lex[sig[m - 1]].tags:
                     lex[i] = Lx("/", "op", ("binop", "binop:/"))
                     self.tag("excluded:cast-paren-mult")
-                elif m >= 0 and m + 1 < len(sig) and "cast-open" in lex[sig[m + 1]].tags:
+                elif m >= 0 and self._group_starts_with_cast(lex, sig, m):
                     # ((T *)x …) * y : the group begins with a cast — same misreading (finding C01|construct:ptrcast-group-mult)
                     lex[i] = Lx("/", "op", ("binop", "binop:/"))
                     self.tag("excluded:ptrcast-group-mult")
         return lex
+
+    @staticmethod
+    def _group_starts_with_cast(lex, sig, m):
+        # ( ( … (T *)x …  : the group opening at sig[m], possibly behind further opening parentheses, begins with a cast
+        k = m + 1
+        while k < len(sig) and lex[sig[k]].t == "(" and "cast-open" not in lex[sig[k]].tags:
+            k += 1
+        return k < len(sig) and "cast-open" in lex[sig[k]].tags
 
     def cond(self, env, depth, budget):
         d = self.d
